@@ -620,7 +620,8 @@ def run(chk: lib.Check):
         from capellambse.filehandler import memory as fhmemory
         d_stats = {"seconds_loading_models": 0.0, "seconds_rendering": 0.0, "renders": 0, "hit": 0, "miss-error": 0, "miss-fallback": 0, "not-a-directory": 0, "models": 0,
                    "handler_objects": {}, "location_specs": {}}
-        D_FMTS = list(rt_names)
+        # formats whose chain has a cacheable link, and one unknown-to-the-cache format as control
+        D_FMTS = [f for f in rt_names if f not in ("termgraphics", "svgdiagram")] + (["termgraphics"] if not quick else [])
         TAGS = {uu: "A", other: "B"}
 
         def planted(place, names):
@@ -888,11 +889,13 @@ def run(chk: lib.Check):
                             continue
                         if mform != "dir-str" and shape in ("url", "get_filehandler", "local-handler") and rname != "model-path":
                             continue        # these do not look at the model path: once is enough
+                        if shape == "get_filehandler" and not (mform == "dir-str" and rname in ("model-path", "elsewhere")):
+                            continue        # the same constructor call as "local-handler"
                         specs.append((f"{mform}:{shape}:{rname}:subdir={sd}", mpath, shape, root, sd, place))
         for label, mpath, shape, root, sd, place in specs:
             sdkw = {} if sd is None else {"subdir": sd}
             same_as_model = shape == "str" and root == mpath
-            for allow in ((False, True) if (rng.random() < 0.34 or "model-path" in label) else (False,)):
+            for allow in ((False, True) if (rng.random() < 0.2 or (shape == "dict" and ":model-path:" in label)) else (False,)):
                 if place is None and allow and not same_as_model:
                     continue
                 kw = {"fallback_render_aird": allow}
